@@ -510,6 +510,9 @@ Proof. intros H. unfold upd. destruct (Nat.eqb_spec b a) as [E|_]; [destruct (H 
 Lemma write_at_nil l i : write_at l i [] = l.
 Proof. unfold write_at. cbn [length app]. rewrite Nat.add_0_r. apply firstn_skipn. Qed.
 
+Lemma firstn_len_app {A} (l1 l2 : list A) : firstn (length l1) (l1 ++ l2) = l1.
+Proof. rewrite firstn_app, firstn_all, Nat.sub_diag. cbn [firstn]. apply app_nil_r. Qed.
+
 (** a read depends only on the slice's own backing array *)
 Lemma read_frame st st' s : st' (s_arr s) = st (s_arr s) -> read st' s = read st s.
 Proof. intros H. unfold read. rewrite H. reflexivity. Qed.
@@ -575,9 +578,7 @@ Proof.
     + reflexivity.
     + unfold read at 1. cbn [s_len s_off s_arr skipn]. rewrite upd_same.
       unfold read. cbn [s_len firstn app].
-      change (p :: ps ++ repeat 0%Z extra2) with ((p :: ps) ++ repeat 0%Z extra2).
-      change (S (length ps)) with (length (p :: ps)).
-      rewrite <- (Nat.add_0_r (length (p :: ps))), firstn_app_2. cbn [firstn]. apply app_nil_r.
+      f_equal. apply firstn_len_app.
   - set (rv := read st v) in *.
     unfold go_append. cbn [s_len s_cap s_arr s_off Nat.add].
     destruct (Nat.leb_spec (length rv + length ps) (length rv + extra1)) as [Hfit|Hgrow]; cbn [fst snd].
@@ -585,18 +586,12 @@ Proof.
          into the fresh array *)
       unfold read. cbn [s_len s_off s_arr skipn]. rewrite upd_same, Hc.
       unfold write_at.
-      rewrite firstn_app, firstn_all, Nat.sub_diag. cbn [firstn]. rewrite app_nil_r.
-      rewrite app_assoc.
-      rewrite <- (Nat.add_0_r (length rv + length ps)).
-      rewrite <- app_length at 1.
-      rewrite firstn_app_2. cbn [firstn]. apply app_nil_r.
+      rewrite firstn_len_app.
+      rewrite app_assoc, <- app_length. apply firstn_len_app.
     + unfold read at 1. cbn [s_len s_off s_arr skipn]. rewrite upd_same.
       unfold read. cbn [s_len s_off s_arr skipn]. rewrite Hc.
-      rewrite firstn_app, firstn_all, Nat.sub_diag. cbn [firstn]. rewrite app_nil_r.
-      rewrite app_assoc.
-      rewrite <- (Nat.add_0_r (length rv + length ps)).
-      rewrite <- app_length at 1.
-      rewrite firstn_app_2. cbn [firstn]. apply app_nil_r.
+      rewrite firstn_len_app.
+      rewrite app_assoc, <- app_length. apply firstn_len_app.
 Qed.
 
 (** B1.  [v] is the slice handed to the function, [w] ANY other slice header
@@ -667,3 +662,83 @@ Example aliasing_fixed :
        (snd (decimal_slice_current alias_store 7 alias_v [9%Z] 1 0 2 0)) = [1; 2; 9]%Z.
 Proof. split; vm_compute; reflexivity. Qed.
 Local Close Scope nat_scope.
+
+(** The bug in general, not only on the example: whenever the parameters fit
+    into the caller's spare capacity, the aliasing variant stores them in the
+    caller's own array, right after the caller's elements — where any longer
+    slice of the caller sees them. *)
+Theorem aliasing_writes_callers_array : forall st v ps fresh extra,
+  (s_len v + length ps <= s_cap v)%nat ->
+  (s_off v + s_cap v <= length (st (s_arr v)))%nat ->
+  let r := decimal_slice_aliasing st v ps fresh extra in
+  s_arr (snd r) = s_arr v /\
+  read (fst r) (mkSlice (s_arr v) (s_off v) (s_len v + length ps) (s_cap v)) = read st v ++ ps.
+Proof.
+  intros st v ps fresh extra Hfit Hok. cbv zeta.
+  unfold decimal_slice_aliasing, go_append.
+  destruct (Nat.leb_spec (s_len v + length ps) (s_cap v)) as [_|Hc]; [|lia].
+  cbn [fst snd s_arr]. split; [reflexivity|].
+  unfold read. cbn [s_arr s_off s_len]. rewrite upd_same. unfold write_at.
+  set (arr := st (s_arr v)) in *.
+  rewrite skipn_app, (firstn_length_le arr (n := s_off v + s_len v)) by lia.
+  replace (s_off v - (s_off v + s_len v))%nat with 0%nat by lia. cbn [skipn].
+  rewrite <- firstn_skipn_comm.
+  assert (Hl : length (firstn (s_len v) (skipn (s_off v) arr)) = s_len v).
+  { rewrite firstn_length, skipn_length. lia. }
+  rewrite app_assoc.
+  replace (s_len v + length ps)%nat with (length (firstn (s_len v) (skipn (s_off v) arr) ++ ps))
+    by (rewrite app_length, Hl; reflexivity).
+  apply firstn_len_app.
+Qed.
+
+(* ------------------------------------------------------------------ *)
+(** * C. History independence, as far as a pure model can state it: the
+    i-th result of a sequence of evaluations is the result of the i-th call
+    alone, whatever the other calls were and however often they were made *)
+Theorem C11_results_are_per_call : forall uni eng (cs : list (top * gv)) i c,
+  nth_error cs i = Some c ->
+  nth_error (map (fun c => do_top uni eng (fst c) (snd c)) cs) i = Some (do_top uni eng (fst c) (snd c)).
+Proof. intros uni eng cs i c H. exact (map_nth_error (fun c => do_top uni eng (fst c) (snd c)) i cs H). Qed.
+
+(** running the calls in another order yields the same results in that order *)
+Theorem C11_results_follow_the_order : forall uni eng (cs cs' : list (top * gv)),
+  Permutation cs cs' ->
+  Permutation (map (fun c => do_top uni eng (fst c) (snd c)) cs)
+              (map (fun c => do_top uni eng (fst c) (snd c)) cs').
+Proof. intros uni eng cs cs' H. apply Permutation_map. exact H. Qed.
+
+(** the same call any number of times: the same result every time *)
+Theorem C11_repeat : forall uni eng t data n,
+  map (fun c => do_top uni eng (fst c) (snd c)) (repeat (t, data) n) = repeat (do_top uni eng t data) n.
+Proof. intros uni eng t data n. induction n as [|n IH]; cbn [repeat map fst snd]; [reflexivity|]. rewrite IH. reflexivity. Qed.
+
+(* ------------------------------------------------------------------ *)
+Print Assumptions fold_distinct_keys_positions.
+Print Assumptions map_lookup_perm.
+Print Assumptions map_lookup_perm_positions.
+Print Assumptions do_ident_perm.
+Print Assumptions fold_distinct_keys_perm.
+Print Assumptions collision_order_dependent_refuted.
+Print Assumptions collision_not_fold_distinct.
+Print Assumptions str_ltb_irrefl.
+Print Assumptions str_ltb_trans.
+Print Assumptions str_ltb_total.
+Print Assumptions insertion_sort_perm.
+Print Assumptions sorted_values_perm.
+Print Assumptions sorted_values_defined.
+Print Assumptions sorted_values_needs_distinct.
+Print Assumptions remove_keys_spec_gen.
+Print Assumptions remove_keys_spec.
+Print Assumptions remove_keys_perm.
+Print Assumptions remove_keys_perm_total.
+Print Assumptions current_store_frame.
+Print Assumptions current_result.
+Print Assumptions current_is_pure.
+Print Assumptions current_is_pure_all.
+Print Assumptions current_repeatable.
+Print Assumptions aliasing_refuted.
+Print Assumptions aliasing_fixed.
+Print Assumptions aliasing_writes_callers_array.
+Print Assumptions C11_results_are_per_call.
+Print Assumptions C11_results_follow_the_order.
+Print Assumptions C11_repeat.
